@@ -518,4 +518,111 @@ def get(name, tier, seed):
         return {**base, "prop": "C11", "worlds": (W11[:3] + W11[5:]) if q else W11, "core": core11,
                 "probes": (lambda m, w, o: [["measure", "state", [f], True, False] for f in focks(m)]),
                 "depth": 2 if q else 3, "extra_judges": ["c11"]}
+    if name == "C08":
+        def probes8(m, w, o):
+            acts = []
+            L = live(m)
+            for e in m.envs:
+                acts.append(["expand", "env:" + e, []])
+                acts.append(["contract", "env:" + e, [], "V"])
+            for s_ in L:
+                acts.append(["expand", "state", [s_]])
+                acts.append(["contract", "state", [s_], "L"])
+                acts.append(["contract", "state", [s_], "V"])
+                acts.append(["measure", "state", [s_], True, False])
+                acts.append(["measure", "state", [s_], False, True])
+                for ent in entries_for(m, s_)[1:]:
+                    acts.append(["measure", ent, [s_], False, False])
+            for h, mem in sorted(m.members.items()):
+                ms = [x for x in L if x in mem]
+                for x in ms:
+                    acts.append(["expand", "ce:" + h, [x]])
+                for t in itertools.permutations(ms, 2):
+                    acts.append(["ce_combine", h, list(t)])
+                break
+            acts.extend(probes_single_ops(seed, full=False)(m, w, o)[::7])
+            acts.extend(probes_kraus(seed)(m, w, o)[::5])
+            return rotate(acts, seed)
+        nearly = W3({"A.f": 1, "A.p": "R"})
+        nearly["prefix"] = [["kraus", "state", ["A.p"], "dephase", {"p": 1e-7 / 2}]]
+        nearly2 = W3({"A.f": 1, "A.p": "R"})
+        nearly2["prefix"] = [["kraus", "state", ["A.p"], "dephase", {"p": 1e-3 / 2}]]
+        w8 = SEEDS_W3[:2] + SEEDS_W1[1:2] + ([("W3/nearly-pure-1e-7", nearly, 1), ("W3/nearly-pure-1e-3", nearly2, 1)])
+        if not q:
+            w8 = SEEDS_W3 + SEEDS_W1 + [("W3/nearly-pure-1e-7", nearly, 2), ("W3/nearly-pure-1e-3", nearly2, 2),
+                                         ("W3/ent", with_prefix(W3({"A.f": 1, "B.p": "V"}), ENT_PREFIX), 2)]
+        return {**base, "prop": "C08", "worlds": w8, "core": core, "probes": probes8, "depth": 2 if q else 3, "twin": "c08"}
+    if name == "C18":
+        def calls18(m, w, o):
+            acts = []
+            L = live(m)
+            flags = [(False, True), (False, False), (True, True), (True, False)]
+            for h, mem in sorted(m.members.items()):
+                ms = [x for x in L if x in mem]
+                F = [x for x in ms if m.ref.kinds[x] == "F"]
+                P = [x for x in ms if m.ref.kinds[x] == "P"]
+                for k in (1, 2, 3):
+                    for t in itertools.permutations(F, k):
+                        for sep, de in flags:
+                            acts.append(["measure", "ce:" + h, list(t), sep, de])
+                        if k >= 2:
+                            acts.append(["ce_combine", h, list(t)])
+                            acts.append(["ce_reorder", h, list(t)])
+                        acts.append(["trace_out", "ce:" + h, list(t)])
+                for t in itertools.permutations(P, 2):
+                    acts.append(["measure", "ce:" + h, list(t), False, True])
+                    acts.append(["op", "ce:" + h, list(t), "CX", None])
+                    acts.append(["kraus", "ce:" + h, list(t), "dil2", None])
+                    acts.append(["povm", "ce:" + h, list(t), "proj", False, True])
+                for f in F:
+                    for p_ in P:
+                        acts.append(["measure", "ce:" + h, [f, p_], True, False])
+                        acts.append(["ce_combine", h, [f, p_]])
+                        acts.append(["trace_out", "ce:" + h, [p_, f]])
+                break
+            for e in m.envs:
+                acts.append(["measure", "env:" + e, [], False, True])
+                acts.append(["measure", "env:" + e, [e + ".f"], True, False])
+            for s_ in L:
+                acts.append(["measure", "state", [s_], False, True])
+            return rotate(acts, seed)
+
+        def core18(m, w, o):
+            acts = []
+            F, P = focks(m), pols(m)
+            h = first_handle(m, F[:2]) if len(F) > 1 else None
+            if h:
+                acts.append(["ce_combine", h, [F[0], F[1]]])
+                acts.append(["ce_combine", h, [F[1], F[2]]] if len(F) > 2 else ["ce_combine", h, [F[1], F[0]]])
+                acts.append(["ce_combine", h, [F[0], P[1]]])
+                acts.append(["op", "ce:" + h, [P[0], P[1]], "CX", None])
+            for e in m.envs[:2]:
+                acts.append(["env_combine", e])
+            for f in F[:2]:
+                acts.append(["expand", "state", [f]])
+            for p_ in P[:2]:
+                acts.append(["op", "state", [p_], "H", None])
+            acts.append(["expand", "state", [F[0]]]) if F else None
+            acts.append(["set_contraction", not m.contraction])
+            return acts
+        E_ = W4({})
+        E_["twin_init"] = {"A.f": 0, "B.f": 1, "C.f": 2, "A.p": "H", "B.p": "V", "C.p": "R"}
+        E2 = W4({"A.f": 1, "B.f": 1, "C.f": 1, "A.p": "R", "B.p": "R", "C.p": "R"})
+        E2["twin_init"] = {"A.f": 0, "B.f": 1, "C.f": 2, "A.p": "H", "B.p": "V", "C.p": "R"}
+        return {**base, "prop": "C18", "worlds": [("W4/all-equal-0H", E_), ("W4/all-equal-1R", E2)], "core": core18,
+                "probes": calls18, "depth": 1 if q else 2, "twin": "c18"}
+    if name == "C17":
+        from .faults import fault_menu
+
+        def core17(m, w, o):
+            acts = layout_core(m, w, o)
+            L = live(m)
+            P, F = pols(m), focks(m)
+            if P:
+                acts.append(["measure", "state", [P[0]], True, True])
+            if F:
+                acts.append(["measure", "state", [F[-1]], False, True])
+            return acts
+        return {**base, "prop": "C17", "worlds": SEEDS_W3[:2] + SEEDS_W1[1:2] if q else SEEDS_W3 + SEEDS_W1,
+                "core": core17, "probes": fault_menu(seed), "depth": 2 if q else 3, "faults": True}
     raise KeyError(name)
